@@ -3646,11 +3646,15 @@ void space_text()
                           __func__, __LINE__, pc->Text(), next->Text());
                   pc->SetFlagBits(PCF_FORCE_SPACE);
                }
-               else if (  last == '/'
-                       && (  first == '/'
-                          || first == '*'))
+               else if (  (  last == '/'
+                          && (  first == '/'
+                             || first == '*'
+                             || (  first == '+'
+                                && language_is_set(lang_flag_e::LANG_D))))
+                       || (  last == '<'
+                          && first == '#'))
                {
-                  // '/' followed by '*' or '/' would open a comment
+                  // '/' followed by '*' or '/' (or '+' in D) would open a comment, '<#' a code placeholder
                   LOG_FMT(LSPACE, "%s(%d): would tokenize differently: pc->Text() '%s', next->Text() '%s'\n",
                           __func__, __LINE__, pc->Text(), next->Text());
                   pc->SetFlagBits(PCF_FORCE_SPACE);
